@@ -29,6 +29,26 @@ CHECKS = {
         "TLS-stack lane uses ssl.MemoryBIO peers",
         "DESIGN.md §2 C01",
     ),
+    "C07": (
+        "exploration",
+        "exhaustive small-scope enumeration of read segmentations + Hypothesis random segmentations; metamorphic "
+        "oracle against the single-read baseline",
+        "All 2^(n-1) segmentations of short requests, all 1- and 2-cut segmentations of longer ones and random "
+        "multi-cut ones, in three delivery modes, must give the same response bytes and the same single handler "
+        "invocation as one read; exhaustive only for the enumerated requests.",
+        "bare protocol on FakeTransport; TLS-pump lane feeds real ciphertext to the PyOpenSSL stack in memory",
+        "DESIGN.md §2 C07",
+    ),
+    "C08": (
+        "exploration",
+        "Hypothesis grammar/corruption/free-bytes generation with a three-valued reference classifier; exhaustive "
+        "length sweep 1000..1040",
+        "Must-accept lines (grammar, up to exactly 1024 bytes) must reach the spy handler with host/port/path/query "
+        "(and Titan size/mime/token/content) intact; must-reject lines get 59 (50 for titan:// when uploads are off) "
+        "with no spy invoked; free bytes only 'invoked => acceptable'. Grey zones never alarm.",
+        "vlib/refurl.py and generator labels are the reference; urllib quirks (blank stripping) are grey",
+        "DESIGN.md §2 C08",
+    ),
 }
 
 PENDING_REASON = "check not built yet in this round (work in progress; technique applies, see DESIGN.md)"
